@@ -25,6 +25,8 @@ func propC08(r *Report, tier string) {
 	ruleParallelSlotsUpdatedTogether(r, "K14-parallel-slots", "search/searcher", "NestedConjunctionSearcher", "currs", []string{"currAncestors", "currKeys"})
 	ruleExhaustionSticky(r, "K6-exhaustion-sticky")
 	ruleHeapRestoredBeforePeek(r, "K5-heap-restored-before-peek")
+	ruleFilteringWrappersFilterEveryResult(r, "K5-filter-wrapper-filters-every-result")
+	ruleCompoundAdvanceCoversAllChildren(r, "K12-compound-advance-covers-all-children", "BooleanSearcher", "ConjunctionSearcher", "DisjunctionSliceSearcher", "PhraseSearcher", "FilteringSearcher")
 	rulePivotFixedDuringAlignment(r, "K14-pivot-fixed-during-alignment")
 	ruleNestedAdvanceTargetsJoinLevel(r, "K5dep-nested-advance-join-level")
 	ruleFirstCallFlagSiblings(r, "K12-first-call-flag", "index/upsidedown", "UpsideDownCouchTermFieldReader")
